@@ -4,7 +4,8 @@
    clauses are proved; positive semidefiniteness and agreement with the exact exponential "within the truncation
    bound" are validated numerically by the harness (the operator-norm remainder estimate is not mechanised). *)
 From Coq Require Import ZArith List Bool Arith QArith.
-From QV Require Import Base.Alg Base.Sums Base.Mat Base.Tens Base.Taylor Base.TaylorG Model.C01 Model.C02 Proofs.C01 Proofs.C07 Proofs.C02.
+From Coq Require Import Qcanon.
+From QV Require Import Base.Alg Base.Sums Base.Mat Base.Tens Base.Taylor Base.TaylorG Model.C01 Model.C02 Model.C02glue Proofs.C01 Proofs.C07 Proofs.C02 Proofs.C02gen.
 Import ListNotations.
 
 (* trace: whatever sequence of generators (one per refined step: time-dependent tensors) annihilates the trace and
@@ -83,3 +84,61 @@ Theorem c02_unitarity_defect : forall x : Q,
   T6 x * T6 (-x) == 1 + pw x 8 / 2880 + pw x 10 / 21600 + pw x 12 / 518400.
 Proof. intros x. split; [apply unitarity_defect_2|]. split; [apply unitarity_defect_4|apply unitarity_defect_6]. Qed.
 Print Assumptions c02_unitarity_defect.
+
+(* ---------------- glue around the kernels (Model/C02glue.v; proofs in Proofs/C02gen.v) ---------------- *)
+
+(* Hamiltonian.set_rwa: with increasing block starts every state of a block gets the mean of the diagonal over that block
+   (inv k stands for 1/float(k)) - so the rotating frame is the same for all states of one excitation block *)
+Theorem c02_rwa_energies_are_block_means : forall (R : StarRing) (inv : nat -> R) (diag : @vec R) (idx : nat -> nat) nblocks dim b ii,
+  (forall b, (S b < nblocks)%nat -> (idx b <= idx (S b))%nat) -> (b < nblocks)%nat -> in_block idx nblocks dim b ii ->
+  rwa_energies inv diag idx nblocks dim ii = block_mean inv diag (idx b) (block_upper idx nblocks dim b).
+Proof. intros R inv diag idx nblocks dim b ii. exact (rwa_energies_block inv diag idx nblocks dim b ii). Qed.
+Print Assumptions c02_rwa_energies_are_block_means.
+
+(* convert_to_RWA followed by convert_from_RWA (unimodular phases, conjugate ones on the way in) restores every stored state
+   and the flag; convert_from_RWA on an evolution that is not in the rotating frame does nothing, and so does a second one *)
+Theorem c02_frame_conversion_machine : forall (R : StarRing) n (u psi : @vec R) (rho : @mat R),
+  conv_from_dm false 1 u rho = (false, rho) /\ conv_to_dm true u rho = (true, rho) /\
+  (forall f, conv_from_dm (fst (conv_from_dm f 1 u rho)) 1 u (snd (conv_from_dm f 1 u rho)) = (false, snd (conv_from_dm f 1 u rho))) /\
+  ((forall i, (i < n)%nat -> rmul R (u i) (cj R (u i)) = r1 R) ->
+     (let s := conv_to_dm false (fun k => cj R (u k)) rho in
+      fst s = true /\ fst (conv_from_dm (fst s) 1 u (snd s)) = false /\ meq n (snd (conv_from_dm (fst s) 1 u (snd s))) rho) /\
+     (let s := conv_to_sv n false (fun k => cj R (u k)) psi in
+      fst s = true /\ fst (conv_from_sv n (fst s) 1 u (snd s)) = false /\ veq n (snd (conv_from_sv n (fst s) 1 u (snd s))) psi)).
+Proof.
+  intros R n u psi rho. split; [apply conv_from_idle|]. split; [apply conv_to_idle|]. split; [intros f; apply conv_from_twice|].
+  intros Hu. split; [exact (conv_roundtrip_dm n u rho Hu)|exact (conv_roundtrip_sv n u psi Hu)].
+Qed.
+Print Assumptions c02_frame_conversion_machine.
+
+(* pure dephasing: the multipliers applied after the refined steps that start at t 0, t 0 + dt, ... accumulate to the exact decay
+   between t 0 and t k - exp(-gamma (t_k - t_0)) for Lorentzian, exp(-gamma (t_k^2 - t_0^2)/2) for Gaussian dephasing - for any
+   function ex with ex(a+b) = ex a ex b and ex 0 = 1 (numpy.exp) and half = 1/2 *)
+Theorem c02_dephasing_accumulates_exact_decay : forall (R : StarRing) (ex : R -> R) (half : R),
+  (forall a b, ex (radd R a b) = rmul R (ex a) (ex b)) -> ex (r0 R) = r1 R -> radd R half half = r1 R ->
+  forall (gam : @mat R) dt (t : nat -> R) k i j, (forall m, t (S m) = radd R (t m) dt) ->
+  deph_acc ex half Lorentzian gam dt t k i j = ex (ropp R (rmul R (gam i j) (rsub R (t k) (t 0%nat)))) /\
+  deph_acc ex half Gaussian gam dt t k i j = ex (ropp R (rsub R (gsq half (gam i j) (t k)) (gsq half (gam i j) (t 0%nat)))).
+Proof.
+  intros R ex half H1 H2 H3 gam dt t k i j Ht. split; [exact (deph_acc_lorentzian ex half H1 H2 gam dt t k i j Ht)|exact (deph_acc_gaussian ex half H1 H2 H3 gam dt t k i j Ht)].
+Qed.
+Print Assumptions c02_dephasing_accumulates_exact_decay.
+Example c02_dephasing_hypotheses_inhabited : exists (ex : QR -> QR) (half : QR),
+  (forall a b, ex (radd QR a b) = rmul QR (ex a) (ex b)) /\ ex (r0 QR) = r1 QR /\ radd QR half half = r1 QR.
+Proof. exists (fun _ => r1 QR), (Q2Qc (1 # 2)). split; [intros; apply Qc_is_canon; reflexivity|]. split; [reflexivity|apply Qc_is_canon; reflexivity]. Qed.
+
+(* propagate: the method string selects the expansion order only (4, 2, 4, 6; anything else is refused), the options select the loop
+   nest only; a per-call refinement Nref = k > 1 is seen by that call as (k, Odt/k) and leaves (Nref, dt) as they were *)
+Theorem c02_method_selects_order_only : forall a b c d e,
+  dispatch a b c d e MShort = Some (target_of a b c d e, 4%Z) /\ dispatch a b c d e MShort2 = Some (target_of a b c d e, 2%Z) /\
+  dispatch a b c d e MShort4 = Some (target_of a b c d e, 4%Z) /\ dispatch a b c d e MShort6 = Some (target_of a b c d e, 6%Z) /\
+  dispatch a b c d e MOther = None /\
+  target_of false b false false false = THam /\ target_of true false false false false = TRelax /\ target_of true true false false false = TTDRelax.
+Proof. exact dispatch_spec. Qed.
+Print Assumptions c02_method_selects_order_only.
+
+Theorem c02_per_call_refinement_restores : forall (R : StarRing) (st : Z * R) (Odt : R) (inv : Z -> R) (k : Z),
+  snd (percall st Odt inv k) = st /\
+  ((1 < k)%Z -> fst (percall st Odt inv k) = (k, rmul R Odt (inv k))) /\ ((k <= 1)%Z -> fst (percall st Odt inv k) = st).
+Proof. intros R. exact (@percall_spec R). Qed.
+Print Assumptions c02_per_call_refinement_restores.
